@@ -22,23 +22,23 @@ Qed.
 
 Section Proofs.
   Variable xref : N -> entry.
-  Variable member : N -> sobj.
+  Variable member : N -> mval.
 
-  Lemma get_S depflag f ref can :
-    get xref member depflag (S f) ref can =
+  Lemma get_S depflag f40 f ref can :
+    get xref member depflag f40 (S f) ref can =
     match xref ref with
     | EFree => Ok SVal
     | EDirect o => Ok o
     | EInStm s =>
       if can then
-        match resolve_with (get xref member depflag f) depth_cap s false with
+        match resolve_with (get xref member depflag f40 f) depth_cap s false with
         | Ok (SStm id deps) =>
-          if N.eqb id s then deps_with (get xref member depflag f) depflag (member ref) deps
-          else
-            match deps_with (get xref member depflag f) depflag (member ref) deps with
-            | Err c => Err c
-            | Ok _ => Err Malformed
-            end
+          match deps_with (get xref member depflag f40 f) depflag SVal deps with
+          | Err c => Err c
+          | Ok _ =>
+            if N.eqb id s then read_member (get xref member depflag f40 f) f40 (member ref)
+            else Err Malformed
+          end
         | Ok _ => Err Malformed
         | Err c => Err c
         end
@@ -47,46 +47,88 @@ Section Proofs.
   Proof. reflexivity. Qed.
 
   (* with canObjStm = false, get does not recurse: one level of fuel suffices *)
-  Lemma get_false_flat depflag f ref :
-    get xref member depflag (S f) ref false <> Err OutOfFuel.
+  Lemma get_false_flat depflag f40 f ref :
+    get xref member depflag f40 (S f) ref false <> Err OutOfFuel.
   Proof. rewrite get_S. destruct (xref ref); discriminate. Qed.
 
-  (* the code as it is (dictionary entries fetched with canObjStm = false):
-     get calls nest at most two deep, whatever the cross-reference table says *)
+  (* the code as it is: dictionary entries of an object stream are fetched with
+     canObjStm = false and a stream-shaped member is refused without a Get:
+     get calls nest at most two deep, whatever the cross-reference table and
+     the contents of the object streams say *)
   Theorem get_depth_bounded_lemma :
     forall fuel ref can, 2 <= fuel ->
-      get xref member false fuel ref can <> Err OutOfFuel.
+      get xref member false true fuel ref can <> Err OutOfFuel.
   Proof.
     intros fuel ref can Hf. destruct fuel as [|[|f]]; try lia.
     rewrite get_S. destruct (xref ref) as [|o|s]; try discriminate.
     destruct can; [|discriminate].
-    assert (Hg : forall r', get xref member false (S f) r' false <> Err OutOfFuel)
+    assert (Hg : forall r', get xref member false true (S f) r' false <> Err OutOfFuel)
       by (intros r'; apply get_false_flat).
     pose proof (resolve_with_no_fuel _ depth_cap s false Hg) as Hs.
-    destruct (resolve_with (get xref member false (S f)) depth_cap s false) as [[r|id deps|]|c];
+    destruct (resolve_with (get xref member false true (S f)) depth_cap s false) as [[r|id deps|]|c];
       try discriminate.
-    - pose proof (deps_with_no_fuel _ false (member ref) deps Hg) as Hd.
-      destruct (N.eqb id s); [exact Hd|].
-      destruct (deps_with (get xref member false (S f)) false (member ref) deps) as [o|c]; [discriminate|].
-      intros Hc. inversion Hc; subst. apply Hd. reflexivity.
+    - pose proof (deps_with_no_fuel _ false SVal deps Hg) as Hd.
+      destruct (deps_with (get xref member false true (S f)) false SVal deps) as [o|c].
+      + destruct (N.eqb id s); [|discriminate].
+        unfold read_member. destruct (member ref); discriminate.
+      + intros Hc. inversion Hc; subst. apply Hd. reflexivity.
     - intros Hc. inversion Hc; subst. apply Hs. reflexivity.
+  Qed.
+
+  (* a stream-shaped member never yields a value: it is Malformed as soon as
+     its container has been found (no Get is made for its /Length) *)
+  Theorem stream_shaped_member_lemma :
+    forall fuel ref can l o,
+      member ref = MStreamShaped l ->
+      get xref member false true fuel ref can = Ok o ->
+      exists d, xref ref = EDirect d \/ (xref ref = EFree /\ o = SVal).
+  Proof.
+    intros fuel ref can l o Hm Hg. destruct fuel as [|f]; [discriminate|].
+    rewrite get_S in Hg. destruct (xref ref) as [|d|s].
+    - exists SVal. right. split; [reflexivity|]. inversion Hg; reflexivity.
+    - exists d. left; reflexivity.
+    - exfalso. destruct can; [|discriminate].
+      destruct (resolve_with _ depth_cap s false) as [[r|id deps|]|c]; try discriminate.
+      destruct (deps_with _ false SVal deps) as [o'|c]; [|discriminate].
+      destruct (N.eqb id s); [|discriminate].
+      rewrite Hm in Hg. cbn in Hg. discriminate.
   Qed.
 End Proofs.
 
-(* the variant that fetches the dictionary entries with canObjStm = true:
-   object 10 is compressed in stream 3 whose /Filter is the indirect object 10 *)
+(* variant 1 (seeded change C05-1): the dictionary entries fetched with
+   canObjStm = true: object 10 is compressed in stream 3 whose /Filter is the
+   indirect object 10 *)
 Definition bad_xref (r : N) : entry :=
   if N.eqb r 10 then EInStm 3 else if N.eqb r 3 then EDirect (SStm 3%N [10%N]) else EFree.
 
 Theorem get_reentry_refuted_lemma :
-  forall fuel, get bad_xref (fun _ => SVal) true fuel 10%N true = Err OutOfFuel.
+  forall fuel, get bad_xref (fun _ => MObj SVal) true true fuel 10%N true = Err OutOfFuel.
 Proof.
   induction fuel as [|f IH]; [reflexivity|].
   rewrite get_S. change (bad_xref 10) with (EInStm 3). cbv iota.
   destruct f as [|f']; [reflexivity|].
   change depth_cap with (S 255). cbn [resolve_with].
-  rewrite (get_S bad_xref (fun _ => SVal) true f' 3%N false).
+  rewrite (get_S bad_xref (fun _ => MObj SVal) true true f' 3%N false).
   change (bad_xref 3) with (EDirect (SStm 3%N [10%N])). cbv iota.
-  change (N.eqb 3 3) with true. cbv iota. cbn [deps_with]. change depth_cap with (S 255). cbn [resolve_with].
+  cbn [deps_with]. change depth_cap with (S 255). cbn [resolve_with].
+  rewrite IH. reflexivity.
+Qed.
+
+(* variant 2 (the code before F40): object 10 is compressed in stream 3 and is
+   stored there as `<< /Length 10 0 R >> stream` *)
+Definition f40_xref (r : N) : entry :=
+  if N.eqb r 10 then EInStm 3 else if N.eqb r 3 then EDirect (SStm 3%N []) else EFree.
+
+Theorem get_f40_refuted_lemma :
+  forall fuel, get f40_xref (fun _ => MStreamShaped 10%N) false false fuel 10%N true = Err OutOfFuel.
+Proof.
+  induction fuel as [|f IH]; [reflexivity|].
+  rewrite get_S. change (f40_xref 10) with (EInStm 3). cbv iota.
+  destruct f as [|f']; [reflexivity|].
+  change depth_cap with (S 255). cbn [resolve_with].
+  rewrite (get_S f40_xref (fun _ => MStreamShaped 10%N) false false f' 3%N false).
+  change (f40_xref 3) with (EDirect (SStm 3%N [])). cbv iota.
+  cbn [deps_with]. change (N.eqb 3 3) with true. cbv iota.
+  unfold read_member. change depth_cap with (S 255). cbn [resolve_with].
   rewrite IH. reflexivity.
 Qed.
